@@ -297,6 +297,8 @@ def evaluate(chk, prop, walks_quick=30, depth_quick=12, walks_thorough=300, dept
             p = ps[0]
             chk.classify(sig, {"workload": describe(h), "hist": h, "crash_point": p["n"], "event": p["event"], "during_statement": p["op_index"],
                                "model": p["model"], "problems": [{k: q[k] for k in ("what", "view", "detail")} for q in ps[:4]]})
+    proto = protocol_traces(chk, 24 if not thorough else 150) if prop == "C01" else None
+    chk.mark("trace_validation")
     if tot["snapshots"] == 0:
         raise vlib.ToolError("no snapshot was judged")
     if tot["abandoned_after_divergence"] > 0.3 * (tot["snapshots"] + tot["abandoned_after_divergence"]):
@@ -312,8 +314,56 @@ def evaluate(chk, prop, walks_quick=30, depth_quick=12, walks_thorough=300, dept
                "rule": "one evaluation = one (crash point, crash model) snapshot reopened and judged; crash points are distinct hook events / statement boundaries of distinct TLC-generated workloads; every one is non-trivial (recovery runs on a database with a non-empty history)",
                "workloads": len(hists), "workload_steps_by_kind": op_kinds, "hook_events_by_kind": events,
                "snapshots_consistent_with_a_prefix": tot["consistent"], "snapshots_abandoned": tot["abandoned_after_divergence"],
-               "signatures": sigs, "exhaustive": False, "crash_models": ["kill", "power"],
+               "signatures": sigs, "exhaustive": False, "crash_models": ["kill", "power"], "protocol_trace_validation": proto,
                "samples": [describe(h) for h in hists[:3]]}
+
+
+def protocol_traces(chk, n):
+    """Durability.tla bound to the code by trace validation: the hook / system-call events of autocommit DML +
+    checkpoint workloads must be a behaviour of the protocol spec, with C01_kill / C01_power_logged /
+    NoRegressionOfAcked evaluated in every reconstructed state."""
+    import durtrace
+    hists, _ = workloads(chk, n * 3, 10, with_txn=False)
+    hists = [h for h in hists if durtrace.supported(h)][:n]
+    if len(hists) < 3:
+        raise vlib.ToolError("too few workloads without transactions / reopen / TRUNCATE for the protocol trace validation")
+    cases = []
+    for i, h in enumerate(hists):
+        c = render(i, h, stride=10 ** 9)
+        c["verify"] = [{"k": "catalog"}]
+        c["work"] = [({"k": "checkpoint"} if o.get("sql") == "PRAGMA wal_checkpoint" else o) for o in c["work"]]
+        cases.append(c)
+    inp, outp = vlib.scratch() + "/proto_in.ndjson", vlib.scratch() + "/proto_out.ndjson"
+    vlib.write_ndjson(inp, cases)
+    vlib.run_vh(["crash-run", "--in", inp, "--out", outp, "--jobs", vlib.NCPU], timeout=3000)
+    outs = {r["id"]: r for r in vlib.read_ndjson(outp)}
+    traces, files, maxp, used = [], set(), 0, []
+    for i, h in enumerate(hists):
+        o = outs[i]
+        tid = {row[2]: row[1] + ".tbd" for row in (o["final"][0].get("rows") or []) if row[1]}
+        tr = durtrace.events_to_trace(h, o, tid)
+        if tr is None:
+            raise vlib.ToolError("a hook event could not be mapped to a file (page_mut address / frame file id)")
+        traces.append(tr); used.append(h)
+        for e in tr:
+            if "f" in e:
+                files.add(e["f"])
+            if "p" in e:
+                maxp = max(maxp, e["p"])
+    ok, detail, st = durtrace.validate(traces, files, maxp)
+    # binding self-test: the same traces with every log sync removed must be rejected
+    ok2, _, _ = durtrace.validate([[e for e in tr if e["e"] != "walsync"] for tr in traces], files, maxp)
+    if ok2:
+        raise vlib.ToolError("Trace_Durability accepts traces without any log sync: the trace specification does not bind")
+    if not ok:
+        rep = {"workloads": [describe(h) for h in used], "detail": detail}
+        if "invariant_violated" in detail:
+            chk.violation("protocol_trace:invariant:" + "+".join(detail["invariant_violated"]), rep)
+        elif '"ack"' in str(detail.get("event")):
+            chk.violation("protocol_trace:statement_acknowledged_before_its_pages_are_covered_by_a_synced_log", rep)
+        else:
+            chk.stale.append("recorded events are not a behaviour of Durability.tla: first unmatched event %s" % json.dumps(detail))
+    return dict(st, accepted=ok, workloads=len(traces), selftest_without_log_sync_rejected=not ok2)
 
 
 def replay_file(chk, path, prop):
